@@ -13,7 +13,8 @@ func init() {
 		Explain: "Structural necessary conditions only. (1) Section positions are independent of the other endpoints: a section's hash input mentions only its endpoint's address and its section number (shared with C18), so adding an endpoint inserts new sections and leaves every existing section where it was. " +
 			"(2) Lookup is successor search with wrap-around: the series' section is the first section whose hash is >= the series hash (sort.Search with that predicate over the sorted sections), index len → 0. " +
 			"(3) Replicas are the next distinct endpoints clockwise: nextSectionReplica scans (from + k) mod len for k = 1..len, and calculateSectionReplicas starts the walk at the section itself (from = i − 1). " +
-			"With (1)–(3) a new endpoint can only be inserted into a series' replica walk; it cannot reorder the remaining endpoints.",
+			"(4) Sections name their endpoint by index into the ring's endpoint list and Nodes() returns that list itself: in every function of pkg/receive that calls Nodes(), the result (and its aliases by assignment / reslicing) is never sorted, reversed, element-assigned, copied into or appended through. " +
+			"With (1)–(4) a new endpoint can only be inserted into a series' replica walk; it cannot reorder the remaining endpoints.",
 		Assume: []string{"availability zones are not configured (with zones the balance rule may reorder)", "the relational statement over all series and hash values is not decided beyond these conditions"},
 		Run:    runC20,
 	})
@@ -23,6 +24,7 @@ func runC20(c *Ctx) {
 	c.Rule("section-position-independent-of-other-endpoints", "hash input = address + section number", 1)
 	c.Rule("successor-lookup-with-wraparound", "first section with hash >= v; len → 0", 1)
 	c.Rule("replicas-by-clockwise-walk", "(from+k) mod len, k from 1; walk starts at the section", 2)
+	c.Rule("ring-endpoints-never-reordered", "what Nodes() returns is read or copied, never sorted or written in place", 4)
 	p := c.Load("pkg/receive")
 	if p == nil {
 		return
@@ -160,5 +162,37 @@ func runC20(c *Ctx) {
 		})
 		c.Check(startOK && advOK, "replicas-by-clockwise-walk", rel+".calculateSectionReplicas", p.Pos(fn.Decl.Pos()), "walk-start",
 			"the replica walk of section i must start at the section itself (from = i−1) and continue from the last chosen section")
+	}
+	// (4) sections refer to their endpoint by index into the ring's endpoint list, and Nodes() hands that very
+	// list out: nobody may reorder or overwrite what Nodes() returned (copying it first is fine).
+	isNodes := func(info *types.Info, call *ast.CallExpr) bool {
+		sel, ok := unparen(call.Fun).(*ast.SelectorExpr)
+		if !ok || sel.Sel.Name != "Nodes" || len(call.Args) != 0 {
+			return false
+		}
+		sl, ok := info.TypeOf(call).Underlying().(*types.Slice)
+		return ok && isNamed(sl.Elem(), "pkg/receive", "Endpoint")
+	}
+	total := 0
+	for _, fn := range p.AllFuncs(true) {
+		if fn.Decl == nil {
+			continue
+		}
+		n, viol := borrowedResultWrites(p, fn, isNodes)
+		if n == 0 {
+			continue
+		}
+		total += n
+		var what []string
+		where := p.Pos(fn.Decl.Pos())
+		for _, v := range viol {
+			what = append(what, p.Pos(v.Pos)+": "+v.What)
+			where = p.Pos(v.Pos)
+		}
+		c.Check(len(viol) == 0, "ring-endpoints-never-reordered", relPkg(fn.Pkg.PkgPath)+"."+fn.Name, where, "nodes-result-mutated",
+			"the slice returned by Nodes() is the ring's own endpoint list, which every section indexes: "+strings.Join(what, "; ")+" — existing sections would resolve to different endpoints, i.e. series move between pre-existing nodes")
+	}
+	if total == 0 {
+		c.Incomplete("ring-endpoints-never-reordered", rel, "", "no call of Nodes() found")
 	}
 }
